@@ -726,6 +726,14 @@ class Sim:
                 bad = [i for i, e in enumerate(exp) if e is not None and e != got[i]]
                 if bad:
                     self.violate("edit-semantics", ["C12"], {"op": op, "expected": exp, "fresh": got}, [k, "value"])
+            if cold.get("expected") and ent is not None:
+                ev, edims = cold["expected"]
+                got = (ent[0], str(rw.from_srepr(ent[1])))
+                if not rw.close(float(got[0]), float(ev), "float64") or got[1] != edims:
+                    self.violate("edit-semantics", ["C12"],
+                                 {"op": op, "expected_mks_value_and_dimensions": cold["expected"], "fresh_entry": got,
+                                  "node_unit_system": node.usys,
+                                  "note": "the stored definition is not value*unit expressed in MKS"}, [k, "value"])
             if k == "remove" and ent is not None:
                 self.violate("edit-semantics", ["C12"], {"op": op, "fresh_entry": ent}, [k, "still-there"])
             self.flags["edit_ok"] = True
